@@ -474,6 +474,7 @@ class SSHTransportBase(protocol.Protocol):
     buf = b""
     outgoingPacketSequence = 0
     incomingPacketSequence = 0
+    _newKeysSent = False
     outgoingCompression = None
     incomingCompression = None
     sessionID = None
@@ -620,7 +621,13 @@ class SSHTransportBase(protocol.Protocol):
         @type payload: L{str}
         """
         if self._keyExchangeState != self._KEY_EXCHANGE_NONE:
-            if not self._allowedKeyExchangeMessageType(messageType):
+            if (
+                not self._allowedKeyExchangeMessageType(messageType)
+                or self._newKeysSent
+            ):
+                # Whatever follows our NEWKEYS has to be protected by the new
+                # keys (RFC 4253 section 7.3), which are taken into use when
+                # the peer's NEWKEYS arrives: it waits until then.
                 self._blockedByKeyExchange.append((messageType, payload))
                 return
 
@@ -1235,6 +1242,7 @@ class SSHTransportBase(protocol.Protocol):
             outs, ins = ins, outs
         self.nextEncryptions.setKeys(outs[0], outs[1], ins[0], ins[1], outs[2], ins[2])
         self.sendPacket(MSG_NEWKEYS, b"")
+        self._newKeysSent = True
 
     def _newKeys(self):
         """
@@ -1251,6 +1259,7 @@ class SSHTransportBase(protocol.Protocol):
             self.incomingCompression = zlib.decompressobj()
 
         self._keyExchangeState = self._KEY_EXCHANGE_NONE
+        self._newKeysSent = False
         messages = self._blockedByKeyExchange
         self._blockedByKeyExchange = None
         for messageType, payload in messages:
